@@ -390,7 +390,9 @@ WORD_RULES = [
     Method("state", "cts_state(&{recv})"), Method("state_ex", "cts_state_ex(&{recv})"), Method("tag", "cts_tag(&{recv})"),
     Method("load", "atomic_load(&{recv})"),
     Method("compare_exchange_strong", "atomic_cas_strong(&{recv}, &{0}, {1})"),
-    Members(["current_state_"]),
+    # an overload that forwards to the other overload (unqualified member call): C has no overloads -> by argument count
+    Call0(r"(?<![\w.>:])restore_state(?=\s*\()", lambda a, e: ("restore_state_1(self, %s)" if len(a) == 2 else "restore_state_2(self, %s)") % ", ".join(a)),
+    Members(["current_state_"], optional=["current_state_"]),
 ]
 REF_PARAMS = Sub(r"(?<![\w.>])(prev_state|new_tagged_state)\b", r"(*\1)", "+")     # C++ reference parameters -> pointers
 
@@ -419,8 +421,9 @@ TD_LIFTS = {
 }
 
 
-def word_unit(name, define, enforce, key, func, doc, min_obl=30, **kw):
-    return Unit(name, unit_template("word.c", [define]), defines=[define], enforce=enforce, lifts=dict(CTS_LIFTS, **{key: TD_LIFTS[key]}),
+def word_unit(name, define, enforce, key, func, doc, min_obl=30, extra_keys=(), **kw):
+    return Unit(name, unit_template("word.c", [define]), defines=[define], enforce=enforce,
+                lifts=dict(CTS_LIFTS, **{k: TD_LIFTS[k] for k in (key,) + tuple(extra_keys)}),
                 funcs=[TD + ": thread_data::" + func] + CTS_FUNCS[:1], min_obligations=min_obl, doc=doc, **kw)
 
 
@@ -434,7 +437,7 @@ UNITS += [
     word_unit("word.restore_state_1", "U_RESTORE_STATE_1", "restore_state_1", "restore_state_1_body",
               "restore_state(thread_state, thread_state)",
               "S: one CAS; succeeds IFF the word still has old_state's (state, tag) (state_ex ignored: taken from the load); "
-              "then (new.state, ex unchanged, tag + 1 iff the state changes)"),
+              "then (new.state, ex unchanged, tag + 1 iff the state changes)", extra_keys=("restore_state_2_body",)),
     word_unit("word.restore_state_2", "U_RESTORE_STATE_2", "restore_state_2", "restore_state_2_body",
               "restore_state(thread_schedule_state, thread_restart_state, thread_state)",
               "S: one CAS; succeeds IFF the word equalled old_state; then (new_state, state_ex as asked, tag + 1 iff the state changes)"),
@@ -480,7 +483,7 @@ SW_LIFTS = {
     "sw_move_next_thread": Lift(LOOP, r"\bthread_id_ref_type move_next_thread\(\)", rules=SW_RULES),
 }
 SW_COMMON = {k: SW_LIFTS[k] for k in ("sw_is_valid", "sw_get_previous", "sw_disable_restore")}
-SW_TD = {k: TD_LIFTS[k] for k in ("set_state_tagged_body", "restore_state_1_body")}
+SW_TD = {k: TD_LIFTS[k] for k in ("set_state_tagged_body", "restore_state_1_body", "restore_state_2_body")}
 
 
 def sw_unit(name, defines, enforce, keys, func, doc, min_obl=60):
@@ -701,7 +704,7 @@ FRAG_RULES = [
 FRAG = Lift(LOOP, r"PIKA_ASSERT\(get_thread_id_data\(thrd\)->get_scheduler_base\(\) == &scheduler\);",
             fragment_end=r"thrd = thread_id_type\(\);\s*\}", rules=FRAG_RULES)
 LOOP_LIFTS = dict(CTS_LIFTS, **SW_LIFTS, body=FRAG,
-                  **{k: TD_LIFTS[k] for k in ("get_state_body", "set_state_body", "set_state_tagged_body", "restore_state_1_body")})
+                  **{k: TD_LIFTS[k] for k in ("get_state_body", "set_state_body", "set_state_tagged_body", "restore_state_1_body", "restore_state_2_body")})
 UNITS += [
     Unit("loop.run_one", unit_template("loop.c", []), enforce="run_one", lifts=LOOP_LIFTS, min_obligations=200,
          funcs=[LOOP + ": scheduling_loop (fragment: body of `if (thrd || get_next_thread(..))`: acquire, run, publish, requeue decision)",
